@@ -54,7 +54,10 @@ def _strace(d, args, inject=None, log="trace.log", backup=False):
     if inject:
         cmd += ["-e", "inject=" + inject]
     cmd += [vsgapi.PY, "-c", _VSG] + args
-    p = subprocess.run(cmd, cwd=d, capture_output=True, text=True, timeout=300, env=_env(), preexec_fn=lambda: os.umask(0o022))
+    try:
+        p = subprocess.run(cmd, cwd=d, capture_output=True, text=True, timeout=300, env=_env(), preexec_fn=lambda: os.umask(0o022))
+    except subprocess.TimeoutExpired:
+        return -9, "", "Traceback (most recent call last):\n  <no answer within 300 s: hang (C19)>\n"
     return p.returncode, p.stdout, p.stderr
 
 
